@@ -112,7 +112,7 @@ def real_job(spec):
             out["fails"].append(("exception:real:%s" % cls, o["error"], {"text": text, "nw": nw, "timeout": to}))
             continue
         out["cases"].append(lc.real_case(cid, o, kernel, table, ids, seq))
-        out["meta"][cid] = {"class": cls, "text": text, "nw": nw, "timeout": to, "wall": round(o["wall"], 3),
+        out["meta"][cid] = {"class": cls, "text": text, "arch": spec["arch"], "nw": nw, "timeout": to, "wall": round(o["wall"], 3),
                             "interleaved": len(set(e["w"] for e in o["raw"] if e["k"] == "app_begin" and e["n"] > 0))}
     return out
 
@@ -137,6 +137,9 @@ def cli_checks(run, tier, seed):
     reports = {}
     with concurrent.futures.ThreadPoolExecutor(max_workers=6) as ex:
         for (f, arch, path, nw), (rc, out, err, hook) in ex.map(one, jobs):
+            if rc == -999:
+                run.fail("C16:no-return:cli:%s" % f, "osaca: %s" % err, {"file": path, "arch": arch, "nw": nw})
+                continue
             if rc != 0 or hook is None:
                 run.fail("C16:exception:cli:%s" % f, "osaca exits with %s: %s" % (rc, err[-400:]),
                          {"file": path, "arch": arch, "nw": nw})
@@ -203,9 +206,13 @@ def main(tier, seed):
     t0 = time.time()
     # ---- R3
     specs = kernel_specs(tier, seed)
-    outs = lc.pool_map(real_job, specs, 6)
+    outs = lc.pool_map(real_job, specs, 6, deadline=240.0 if quick else 600.0)
     cases, meta = [], {}
     for o in outs:
+        if o.get("hang"):
+            run.fail("C16:no-return:real:%s" % o["name"], "the analysis of %s did not return within %s s (job killed)" % (
+                o["name"], o.get("after_s")), {"job": {k: v for k, v in o["item"].items() if k != "text"}, "text": o["item"].get("text", "")[:3000]})
+            o.update(cases=[], meta={}, fails=[], notes={})
         if o.get("machinery"):
             raise tlc.TLCError(o["machinery"])
         for sig, what, case in o["fails"]:
@@ -238,14 +245,4 @@ def main(tier, seed):
 
 
 def replay(path):
-    with open(path) as f:
-        rec = json.load(f)
-    print("replaying", rec["signature"])
-    case = rec["case"].get("case")
-    if case and "events" in case:
-        rejects, r = tlc.batch_validate("Trace_LCDSearch", rec["case"].get("trace_cfg", "Trace_LCDSearch"), [case])
-        for x in rejects:
-            print("REJECT", x)
-        return 1 if any(x[1].startswith("A:") for x in rejects) else 0
-    print(json.dumps(rec["case"], indent=1)[:4000])
-    return 0
+    return lc.replay_file(path, "C16")
